@@ -2007,18 +2007,22 @@ class MiniInterp:
                 fn0 = args[0]
                 return LazyIter(_it.dropwhile(lambda x: self.truth(self.apply2(fn0, [x], {})), self.pull(args[1])))
             if base == "accumulate" and args:
-                xs = self.iterate(args[0])
                 fn = args[1] if len(args) > 1 else kwargs.get("func")
-                out = []
                 init = kwargs.get("initial")
-                if init is not None:
-                    out.append(init)
-                for x in xs:
-                    if not out:
-                        out.append(x)
-                    else:
-                        out.append(self.apply2(fn, [out[-1], x], {}) if fn is not None else self.binop(ast.Add(), out[-1], x, node))
-                return _Iter(out)
+
+                def acc_gen(src=args[0], fn=fn, init=init):
+                    have, cur = False, None
+                    if init is not None:
+                        have, cur = True, init
+                        yield cur
+                    for x in self.pull(src):
+                        self.tick()
+                        if not have:
+                            have, cur = True, x
+                        else:
+                            cur = self.apply2(fn, [cur, x], {}) if fn is not None else self.binop(ast.Add(), cur, x, node)
+                        yield cur
+                return LazyIter(acc_gen())
             if base == "starmap" and len(args) == 2:
                 fn0 = args[0]
                 return LazyIter((self.apply2(fn0, list(self.iterate(t)), {}) for t in self.pull(args[1])))
@@ -2027,6 +2031,9 @@ class MiniInterp:
                 return LazyIter(_it.islice(self.pull(args[0]), *args[1:]))
             if base == "repeat" and len(args) == 2:
                 return _Iter([args[0]] * args[1])
+            if base == "repeat" and len(args) == 1:
+                import itertools as _it
+                return LazyIter(_it.repeat(args[0]))
             if base == "zip_longest":
                 xs = [self.iterate(a) for a in args]
                 n = max((len(x) for x in xs), default=0)
@@ -2043,11 +2050,17 @@ class MiniInterp:
                         groups.append((k, [x]))
                 return _Iter([(k, _Iter(g)) for k, g in groups])
             if base == "compress" and len(args) == 2:
-                return _Iter([x for x, sel in zip(self.iterate(args[0]), self.iterate(args[1])) if self.truth(sel)])
+                return LazyIter((x for x, sel in zip(self.pull(args[0]), self.pull(args[1])) if self.truth(sel)))
             if base == "filterfalse" and len(args) == 2:
-                return _Iter([x for x in self.iterate(args[1]) if not self.truth(x if args[0] is None else self.apply(args[0], [x]))])
+                fn0 = args[0]
+                return LazyIter((x for x in self.pull(args[1]) if not self.truth(x if fn0 is None else self.apply(fn0, [x]))))
             if base == "count":
-                raise Unknown("itertools.count (unbounded)")
+                import itertools as _it
+                start = args[0] if args else kwargs.get("start", 0)
+                step = args[1] if len(args) > 1 else kwargs.get("step", 1)
+                if not all(isinstance(v, (int, float)) for v in (start, step)):
+                    raise Unknown("itertools.count of symbolic numbers")
+                return LazyIter(_it.count(start, step))
             if base == "product":
                 import itertools as _it
                 cols = [self.iterate(a) for a in args] * int(kwargs.get("repeat", 1))
@@ -2059,8 +2072,8 @@ class MiniInterp:
                 xs = self.iterate(args[0])
                 return tuple(_Iter(list(xs)) for _ in range(args[1] if len(args) > 1 else 2))
             if base == "pairwise" and len(args) == 1:
-                xs = self.iterate(args[0])
-                return _Iter(list(zip(xs, xs[1:])))
+                import itertools as _it
+                return LazyIter(_it.pairwise(self.pull(args[0])))
         if mod == "heapq" and base in ("nlargest", "nsmallest") and len(args) >= 2:
             keyf = kwargs.get("key", args[2] if len(args) > 2 else None)
             xs = self.builtin("sorted", [self.iterate(args[1])], {"key": keyf, "reverse": base == "nlargest"} if keyf is not None else {"reverse": base == "nlargest"}, node)
